@@ -41,7 +41,7 @@ VARIABLES
 
 rvars == <<idx, mask, pst, dead, active, rlock, cur, swriter, readers, seen, store, snap, created, lockseq, cin>>
 
-NoCur == [op |-> "", id |-> "", ev |-> "", ctr |-> "", plist |-> <<>>, pos |-> 0, veto |-> FALSE, visited |-> <<>>]
+NoCur == [op |-> "", id |-> "", ev |-> "", ctr |-> "", plist |-> <<>>, pos |-> 0, veto |-> "no", visited |-> <<>>]
 
 RInit ==
   /\ idx = [p \in {} |-> 0] /\ mask = [p \in {} |-> {}] /\ pst = [p \in {} |-> ""] /\ dead = {}
@@ -123,7 +123,7 @@ Lock(h, op, id, ev, ctr) ==
   /\ rlock = ""
   /\ rlock' = h
   /\ cur' = [op |-> op, id |-> id, ev |-> ev, ctr |-> ctr, plist |-> active, pos |-> 0,
-             veto |-> FALSE, visited |-> <<>>]
+             veto |-> "no", visited |-> <<>>]
   /\ lockseq' = IF op = "request" THEN Append(lockseq, id) ELSE lockseq
   /\ UNCHANGED <<idx, mask, pst, dead, active, swriter, readers, seen, store, snap, created, cin>>
 
@@ -136,23 +136,23 @@ NextTarget(j) ==
 (* The request is delivered to the handler of plugin p: p is the next       *)
 (* subscribed plugin in the order fixed when the lock was taken.            *)
 Deliver(p) ==
-  /\ rlock # "" /\ cur.op = "request" /\ ~cur.veto
+  /\ rlock # "" /\ cur.op = "request" /\ cur.veto # "yes"
   /\ \E j \in DOMAIN cur.plist :
         /\ cur.plist[j] = p /\ NextTarget(j)
         /\ cur.ev \in mask[p]
         /\ p \in dead => cin[p] = cur.id     \* a dropped plugin gets no further requests
-        /\ cur' = [cur EXCEPT !.pos = j, !.visited = Append(@, p)]
+        /\ cur' = [cur EXCEPT !.pos = j, !.visited = Append(@, p), !.veto = "no"]
   /\ seen' = [seen EXCEPT ![p] = Append(@, cur.id)]
   /\ created' = IF cur.ev = CREATE THEN [created EXCEPT ![p] = @ \cup {cur.ctr}] ELSE created
   /\ UNCHANGED <<idx, mask, pst, dead, active, rlock, swriter, readers, store, snap, lockseq, cin>>
 
 \* the handler of the plugin visited last failed the request deliberately
 Veto ==
-  /\ rlock # "" /\ cur.op = "request" /\ ~cur.veto /\ Len(cur.visited) > 0
-  /\ cur' = [cur EXCEPT !.veto = TRUE]
+  /\ rlock # "" /\ cur.op = "request" /\ cur.veto = "no" /\ Len(cur.visited) > 0
+  /\ cur' = [cur EXCEPT !.veto = "yes"]
   /\ UNCHANGED <<idx, mask, pst, dead, active, rlock, swriter, readers, seen, store, snap, created, lockseq, cin>>
 
-RelayDone == cur.veto \/ \A k \in (cur.pos + 1)..Len(cur.plist) : ~MustVisit(k)
+RelayDone == cur.veto # "no" \/ \A k \in (cur.pos + 1)..Len(cur.plist) : ~MustVisit(k)
 
 Unlock(h) ==
   /\ rlock = h
@@ -166,7 +166,10 @@ PluginClosed(p) ==
   /\ p \notin dead
   /\ dead' = dead \cup {p}
   /\ cin' = Ext(cin, p, IF rlock # "" /\ cur.op = "request" THEN cur.id ELSE "")
-  /\ UNCHANGED <<idx, mask, pst, active, rlock, cur, swriter, readers, seen, store, snap, created, lockseq>>
+  \* if the plugin that just failed the request is dropped before its answer arrived, the veto may be lost
+  /\ cur' = IF rlock # "" /\ cur.op = "request" /\ cur.veto = "yes" /\ cur.visited[Len(cur.visited)] = p
+             THEN [cur EXCEPT !.veto = "maybe"] ELSE cur
+  /\ UNCHANGED <<idx, mask, pst, active, rlock, swriter, readers, seen, store, snap, created, lockseq>>
 
 \* -------------------------------------------------------------- invariants --
 Sorted == SortedSeq(active)
